@@ -959,6 +959,16 @@ class Engine:
             def pre(b):
                 b.env[stmt.target.id] = V(b.env[idx].e, INT); b.env[idx] = V(b.env[idx].e + 1, INT); return [b]
             return self.loop(stmt, s0, guard, pre, extra_havoc=[idx])
+        if isinstance(it, ast.Call) and isinstance(it.func, ast.Name) and it.func.id == 'range' and len(it.args) == 3 and ast.unparse(it.args[2]) == '-1':
+            # range(hi, lo, -1): hi, hi-1, ..., lo+1   (index variable _i<k> holds the NEXT value to be taken)
+            s0, hi = self.ev1(it.args[0], st); s0, lo = self.ev1(it.args[1], s0)
+            s0.env[idx] = V(hi.e, INT)
+
+            def guard(s): return [(s, s.env[idx].e > lo.e)]
+
+            def pre(b):
+                b.env[stmt.target.id] = V(b.env[idx].e, INT); b.env[idx] = V(b.env[idx].e - 1, INT); return [b]
+            return self.loop(stmt, s0, guard, pre, extra_havoc=[idx])
         out = []
         for s0, seq in self.ev(it, st):
             if isinstance(seq, Raise): out.append((s0, seq)); continue
